@@ -51,6 +51,8 @@ pub struct Stats {
     pub samples: Vec<Value>,
     pub sample_cap: usize,
     pub extra: BTreeMap<String, u64>,
+    /// hits of known findings: key -> (count, first case as JSON)
+    pub known: BTreeMap<String, (u64, Value)>,
 }
 
 impl Stats {
@@ -81,6 +83,15 @@ impl Stats {
             self.samples.push(f());
         }
     }
+    /// record an occurrence of a (potentially) known finding; the case is excluded from the search
+    /// by the caller. Reported at the end: KNOWN-FINDING if listed in known_findings.json, VIOLATION otherwise.
+    pub fn known_hit(&mut self, key: &str, case: impl FnOnce() -> Value) {
+        if self.frozen {
+            return;
+        }
+        let e = self.known.entry(key.to_string()).or_insert_with(|| (0, case()));
+        e.0 += 1;
+    }
     pub fn wants_sample(&self) -> bool {
         !self.frozen && self.samples.len() < self.sample_cap
     }
@@ -107,6 +118,10 @@ impl Stats {
             if self.samples.len() < 8 {
                 self.samples.push(s);
             }
+        }
+        for (k, (n, c)) in o.known {
+            let e = self.known.entry(k).or_insert((0, c));
+            e.0 += n;
         }
     }
 }
@@ -424,6 +439,26 @@ pub fn run<P: Property>(args: &Args) -> i32 {
         exit = 1;
     }
 
+    // occurrences excluded by construction: KNOWN-FINDING when listed, VIOLATION otherwise
+    let mut excluded: BTreeMap<String, u64> = BTreeMap::new();
+    for (key, (n, case)) in &total.known {
+        excluded.insert(key.clone(), *n);
+        if let Some(k) = known.iter().find(|k| k.property == P::ID && k.status == "known" && &k.key == key) {
+            println!("KNOWN-FINDING: property={} {} ({}; {} occurrences excluded from this run)", P::ID, k.key, k.what, n);
+            known_hits.push(k.key.clone());
+        } else {
+            let body = json!({"property": P::ID, "signature": key, "why": "occurrence of a finding that known_findings.json does not list as known", "case": case});
+            let dir = Path::new(VERIF_ROOT).join("replays");
+            let _ = std::fs::create_dir_all(&dir);
+            let s = serde_json::to_string_pretty(&body).unwrap();
+            let p = dir.join(format!("{}-{:016x}.json", P::ID, fingerprint(&s)));
+            let _ = std::fs::write(&p, s);
+            println!("failure [{key}]: {n} occurrences of a finding that is not listed as known");
+            println!("VIOLATION property={} replay={}", P::ID, p.display());
+            n_viol += 1;
+            exit = 1;
+        }
+    }
     let wall = t0.elapsed().as_secs_f64();
     if args.evidence {
         let classes: BTreeMap<_, _> = total.classes.iter().collect();
@@ -446,6 +481,7 @@ pub fn run<P: Property>(args: &Args) -> i32 {
                 "generated_cases_requested": n_cases,
                 "shards": shards,
                 "known_findings_hit": known_hits,
+                "known_finding_occurrences_excluded": excluded,
                 "sub_runs": std::env::var("NDV_EXTRA_EVIDENCE").ok().and_then(|s| serde_json::from_str::<Value>(&s).ok()).unwrap_or(Value::Null),
             },
             "assumptions": P::assumptions(),
